@@ -15,7 +15,7 @@ EXPLANATION = (
     'NOT decided; (R6) no division by a possibly-zero value in the search call graph; (R7) imports the legality-filter rules C01.R1/R2 '
     "(the candidates searched are legal). R3 also imports C04.R4's who-may-call rule for the raw board mutators over the search call "
     'graph; R7 now imports ALL clauses of C01 (generation, castling guards, pawn geometry, promotions), since the move returned is one '
-    'of the generated moves.'
+    'of the generated moves. R6 ignores the divisor assertion rustc emits for a non-zero literal divisor.'
 )
 ASSUMPTIONS = [
     "rayon's par_iter().map().collect() yields one scored entry per candidate (so a non-empty candidate list gives a non-empty vector)",
@@ -268,7 +268,16 @@ def r6_no_arithmetic_panic(ctx):
         for b in f.blocks:
             t = b['term']
             if t['k'] == 'assert' and (t['msg'].startswith('DivisionByZero') or t['msg'].startswith('RemainderByZero')):
-                bad.append((nme, t.get('span')))
+                # at mir-opt-level 0 the assertion is emitted for a literal divisor too: `_c = Eq(const 8, const 0); assert(!_c)` cannot fire
+                cl = t['cond'].get('place', {}).get('local') if t['cond'].get('k') in ('move', 'copy') else None
+                lit = False
+                for st in b['stmts']:
+                    if st['k'] == 'assign' and st['place']['local'] == cl and not st['place']['proj']:
+                        rv = st['rv']
+                        lit = rv['k'] == 'binop' and rv['op'] == 'Eq' and rv['a'].get('k') == 'const' and rv['b'].get('k') == 'const' and \
+                            isinstance(rv['a'].get('value'), int) and rv['b'].get('value') == 0 and rv['a']['value'] != 0
+                if not lit:
+                    bad.append((nme, t.get('span')))
     ctx.ob(rule, SEARCH, 'no division or remainder by a value that can be zero in the search call graph', not bad, found=bad[:4], expected=[],
            why='a search that panics (e.g. a statistic divided by a counter that is zero when every child came from the cache) does not answer with a legal move')
     ctx.floor(rule, 'functions of the search call graph scanned', n, 10)
